@@ -20,6 +20,7 @@ CLAUSES = {   # minimum evaluations per run (about a fifth of what a quick run m
     "C18.blockvalue": 10000, "C18.conservation": 5000,
     "C18.ohv": 3000, "C18.ohv.latentfn": 2000, "C18.opv": 1000, "C18.gb": 1000,
     "C18.bound": 3000, "C18.finite": 10000,
+    "C18.partition.order": 8000,
     "C18.state.latentfn": 12000, "C18.state.evalfn": 15000, "C18.state.props": 7000,
 }
 HOOKS_REQUIRED = ["haplobin<-haplomat", "haplobin<-OptimalHaploidValueSelectionProblemMixin._calc_haplomat",
@@ -34,7 +35,11 @@ RULE = ("seeded class-based marker layouts: 1-4 chromosomes (non-consecutive lab
         "small integers = exact arithmetic, all-negative, 12 decades of magnitude, zeros); OHV crosses of 1-4 parents with and "
         "without repeated parents in the four encodings, chunk sizes 1..None; OPV/GB subsets of 1..n taxa; genomic models with 1-3 "
         "fixed effects, u_misc absent / empty / 1-3 misc random effects, u_a in C, Fortran, strided and negative-stride layouts; genotype "
-        "matrices with optional taxa_grp/vrnt_name/vrnt_xoprob and hostile layouts; 30% of the problems built by the selection "
+        "matrices as a user may hold them before grouping: vrnt_phypos / vrnt_name / vrnt_xoprob / taxa_grp present or absent in every "
+        "combination, chromosomes descending / in random order / interleaved in storage (with vrnt_phypos also markers shuffled or "
+        "reversed), chromosome labels 1..11, 0-based, {3,7,19,40}, negative and 2**40; grouped by group_vrnt / group(axis) / sort_vrnt+"
+        "group_vrnt / twice, then optionally deep/shallow copied or taxa-permuted by select_taxa; 12% also submitted ungrouped; "
+        "30% of the problems built by the selection "
         "protocols' problem(); haplomat() also with float32/int64 effects and int64/uint8/bool/float64 genomes; family 'lifecycle': "
         "long-lived OPV/GB/OHV(4 encodings) objects built by constructor (arbitrary float64/float32/int64 state in hostile layouts) or "
         "from_pgmat_gpmod, then 2-5 operations out of {state setter same shape / other ploidy+block count, in-place write, obj_wt "
@@ -52,6 +57,11 @@ ASSUME = [
     "among the selected taxa; with nbestfndr = 1 this is the OPV of the statement",
     "the order of the block axis of haplomat is not constrained by the statement: any one-to-one placement of the block values is accepted",
     "label values returned by haplobin are not constrained beyond being non-decreasing (gaps in the numbering are accepted)",
+    "the oracle is defined on (chromosome, genetic position), not on storage order: without vrnt_phypos a valid stored layout is ascending "
+    "in position inside every chromosome (the library can only sort by chromosome, stably); with vrnt_phypos (strictly increasing with "
+    "position inside a chromosome) any storage order is valid; after grouping the markers must be in chromosome/position order with their "
+    "genotypes and labels attached (identity carried in vrnt_hapgrp); the model's u_a follows the grouped marker order",
+    "factories reject ungrouped matrices (documented; counted as raised); one that accepts must still conserve every copy's additive value",
     "block values use the additive marker effects u_a only: fixed effects (beta) and misc random effects (u_misc) belong to no marker",
     "a problem object's public state is what its getters return now (haplomat / ohvmat / nbestfndr / obj_wt), whether it was assigned "
     "through a setter or written in place through the returned array; evalfn/_evaluate with the default identity transformation give "
@@ -156,7 +166,8 @@ def gen_layout(g):
     spix = numpy.cumsum(lens).astype(int)
     stix = spix - numpy.array(lens, dtype=int)
     m = int(spix[-1])
-    labels = numpy.sort(g.choice(numpy.arange(1, 12), nchr, replace=False))
+    pool = [numpy.arange(1, 12), numpy.arange(0, 6), numpy.array([3, 7, 19, 40]), numpy.array([-2, 0, 5, 1000, 2 ** 40])][int(g.choice([0, 0, 1, 2, 3]))]
+    labels = numpy.sort(g.choice(pool, nchr, replace=False))
     chrgrp = numpy.repeat(labels, lens).astype("int64")
     r = g.random()
     if r < 0.2:
@@ -244,6 +255,80 @@ def dtype_rtol(*dts):
         if d.kind == "f" and d.itemsize < 8:
             r = max(r, 64.0 * float(numpy.finfo(d).eps))
     return r
+
+
+def user_storage(g, L):
+    """How a user may hold a valid marker layout before the library groups it.  Returns (perm, mode, has_phypos, phypos):
+    perm[s] = canonical (chromosome, position) index of the marker stored at s.  Without vrnt_phypos the library can only
+    sort by chromosome (stably), so the within-chromosome storage order is ascending in position; with vrnt_phypos
+    (strictly increasing with position inside a chromosome) any storage order is valid."""
+    m = L["m"]
+    has_phypos = bool(g.random() < 0.55)
+    modes = ["grouped", "chromosomes descending", "chromosomes in random order", "chromosomes interleaved", "chromosomes interleaved"]
+    if has_phypos:
+        modes += ["markers shuffled", "markers shuffled", "markers reversed"]
+    mode = str(g.choice(modes))
+    segs = [list(range(int(a), int(b))) for a, b in zip(L["stix"], L["spix"])]
+    if L["nchr"] == 1 and mode.startswith("chromosomes"):
+        mode = "grouped"
+    if mode == "grouped":
+        perm = list(range(m))
+    elif mode == "chromosomes descending":
+        perm = [i for sg in segs[::-1] for i in sg]
+    elif mode == "chromosomes in random order":
+        perm = [i for k in g.permutation(len(segs)) for i in segs[int(k)]]
+    elif mode == "chromosomes interleaved":      # random riffle: within-chromosome order preserved
+        heads = [0] * len(segs); perm = []
+        while len(perm) < m:
+            live = [k for k in range(len(segs)) if heads[k] < len(segs[k])]
+            k = int(g.choice(live)); perm.append(segs[k][heads[k]]); heads[k] += 1
+    elif mode == "markers reversed":
+        perm = list(range(m))[::-1]
+    else:
+        perm = g.permutation(m).tolist()
+    phypos = None
+    if has_phypos:      # strictly increasing inside every chromosome (restarting, or not, at chromosome borders)
+        phypos = numpy.concatenate([numpy.cumsum(g.integers(1, 1000, len(sg))) + int(g.choice([0, 0, 10 ** 6])) for sg in segs]).astype("int64")
+    return numpy.array(perm, dtype=int), mode, has_phypos, phypos
+
+
+def check_grouping(ctx, pg, st, icls, coords):
+    """C18.partition.order: after group_vrnt() the markers are held chromosome by chromosome (ascending labels), in
+    non-decreasing genetic position inside each chromosome - the order haplotype blocks are defined on -, every marker
+    keeps its genotypes and labels (identity carried in vrnt_hapgrp), and the chromosome boundary indices delimit the
+    chromosomes.  ``st`` holds the arrays as stored by the user.  Returns ids (storage index of each grouped marker) or None."""
+    C = "C18.partition.order"
+    site = defsite(type(pg), "group_vrnt")
+    m = len(st["chrgrp"])
+    ids = pg.vrnt_hapgrp
+    w = {"stored": {k: v for k, v in st.items() if k != "mat"}, "grouped": {"vrnt_hapgrp(id)": ids, "vrnt_chrgrp": pg.vrnt_chrgrp,
+         "vrnt_genpos": pg.vrnt_genpos, "vrnt_phypos": pg.vrnt_phypos, "stix": pg.vrnt_chrgrp_stix, "spix": pg.vrnt_chrgrp_spix}}
+    ok = ctx.check(C, ids is not None and sorted(numpy.asarray(ids).tolist()) == list(range(m)), site,
+                   "grouped markers are a permutation of the stored markers", icls, witness=w, coords=coords)
+    if not ok:
+        return None
+    ids = numpy.asarray(ids, dtype=int)
+    att = numpy.array_equal(pg.mat, st["mat"][:, :, ids]) and numpy.array_equal(pg.vrnt_chrgrp, st["chrgrp"][ids]) \
+        and numpy.array_equal(pg.vrnt_genpos, st["genpos"][ids]) \
+        and all((getattr(pg, "vrnt_" + k) is None) == (st[k] is None) and (st[k] is None or numpy.array_equal(getattr(pg, "vrnt_" + k), st[k][ids]))
+                for k in ("phypos", "name", "xoprob"))
+    ok1 = ctx.check(C, att, site, "every marker keeps its genotypes and labels", icls, witness=w, coords=coords)
+    chrg = numpy.asarray(pg.vrnt_chrgrp).tolist(); gp = numpy.asarray(pg.vrnt_genpos, dtype=float).tolist()
+    ok2 = ctx.check(C, all(chrg[i] <= chrg[i + 1] for i in range(m - 1)), site, "chromosomes contiguous and in ascending label order", icls,
+                    witness=w, coords=coords)
+    ok3 = ctx.check(C, all(gp[i] <= gp[i + 1] for i in range(m - 1) if chrg[i] == chrg[i + 1]), site,
+                    "genetic positions non-decreasing inside every chromosome", icls,
+                    what="group_vrnt leaves the markers of a chromosome out of genetic order (%s): haplotype blocks are then not contiguous "
+                         "in position" % icls, witness=w, coords=coords)
+    cuts = [0] + [i for i in range(1, m) if chrg[i] != chrg[i - 1]] + [m]
+    try:
+        bnd = (numpy.asarray(pg.vrnt_chrgrp_stix).tolist() == cuts[:-1] and numpy.asarray(pg.vrnt_chrgrp_spix).tolist() == cuts[1:]
+               and numpy.asarray(pg.vrnt_chrgrp_len).tolist() == [b - a for a, b in zip(cuts[:-1], cuts[1:])]
+               and numpy.asarray(pg.vrnt_chrgrp_name).tolist() == [chrg[a] for a in cuts[:-1]] and bool(pg.is_grouped_vrnt()))
+    except Exception:
+        bnd = False
+    ok4 = ctx.check(C, bnd, site, "chromosome start/stop/length/name arrays delimit the chromosomes", icls, witness=w, coords=coords)
+    return ids if (ok1 and ok2 and ok3 and ok4) else None
 
 
 def own_apportionment(g, nblk, lens):
@@ -459,6 +544,39 @@ def vector_args(kind, nspace, nobj):
                 decn_space_lower=numpy.repeat(lo, nspace), decn_space_upper=numpy.repeat(up, nspace), nobj=nobj)
 
 
+def ungrouped_submission(ctx, S, g, pg, st, u_st, nblk, n, t, gcls, coords):
+    """The problem factories are handed the matrix as stored (never grouped).  Rejecting it is the documented reaction
+    (counted as raised); a factory that accepts it must still return finite block values that conserve every copy's
+    additive value (an order-free consequence of the statement)."""
+    mod = S["GM"](beta=numpy.zeros((1, t)), u_misc=None, u_a=numpy.ascontiguousarray(u_st), trait=numpy.array(["y%d" % i for i in range(t)], dtype=object))
+    k = int(g.integers(1, n + 1))
+    which = int(g.integers(0, 3))
+    if which == 0:
+        Mix = S["MOHV"].OptimalHaploidValueSelectionProblemMixin
+        site, call = defsite(Mix, "_calc_haplomat"), (lambda: Mix._calc_haplomat(pg, mod, nblk))
+    elif which == 1:
+        cls = S["MOPV"].OptimalPopulationValueSubsetSelectionProblem
+        site, call = defsite(cls, "from_pgmat_gpmod"), (lambda: cls.from_pgmat_gpmod(nhaploblk=nblk, pgmat=pg, gpmod=mod, **subset_args(k, n, t)).haplomat)
+    else:
+        cls = S["MGB"].GenotypeBuilderSubsetSelectionProblem
+        site, call = defsite(cls, "from_pgmat_gpmod"), (lambda: cls.from_pgmat_gpmod(pgmat=pg, gpmod=mod, nhaploblk=nblk, nbestfndr=1, **subset_args(k, n, t)).haplomat)
+    del TRACE[:]
+    try:
+        Hm = numpy.asarray(call(), dtype=float)
+    except Exception as e:
+        ctx.raised("ungrouped matrix rejected by " + site, e)
+        return
+    ctx.sumnote("ungrouped matrix accepted by " + site)
+    icls = "ungrouped input/" + gcls
+    w = {"stored": {kk: v for kk, v in st.items() if kk != "mat"}, "haplomat": Hm}
+    if not ctx.check("C18.finite", bool(numpy.all(numpy.isfinite(Hm))), site, "block values finite", icls, witness=w, coords=coords):
+        return
+    T = O.copy_totals(st["mat"], u_st)
+    eps = O.tol(O.value_scale(u_st))
+    ctx.check("C18.conservation", Hm.ndim == 4 and Hm.shape[:2] == T.shape[:2] and float(numpy.abs(Hm.sum(2) - T).max()) <= eps, site,
+              "sum over blocks == total additive value of the chromosome copy", icls, witness=dict(w, copy_totals=T), coords=coords)
+
+
 def case_problems(ctx, c):
     """OHV (four encodings, chunked matrix), OPV and genotype-builder problems built from a genotype matrix and a model."""
     S = setup()
@@ -471,25 +589,79 @@ def case_problems(ctx, c):
     ctx.case("problems:" + L["class"], L["genpos"], L["lens"], nblk, G, u, trivial=m < 2 or nblk < 2)
     if c % 101 == 0:
         ctx.sample(dict(summary(L, nph, n, u, uk), fn="OHV/OPV/GB problems"))
-    extra = {}
-    if g.random() < 0.4:     # optional metadata that must not matter
-        extra = dict(taxa_grp=numpy.sort(g.integers(0, 3, n)).astype("int64"),
-                     vrnt_name=numpy.array(["snp%03d" % i for i in range(m)], dtype=object),
-                     vrnt_xoprob=numpy.clip(g.uniform(0, 0.5, m), 0, 0.5))
-    G_in, glay = relayout(g, G.copy())
-    pg = S["PG"](G_in, taxa=numpy.array(["t%02d" % i for i in range(n)], dtype=object), vrnt_chrgrp=L["chrgrp"].copy(),
-                 vrnt_phypos=numpy.arange(1, m + 1, dtype="int64") * 10, vrnt_genpos=L["genpos"].copy(), ploidy=nph, **extra)
-    pg.group_vrnt()
+    # ---- the layout as the user holds it: optional labels absent in every combination, chromosomes not contiguous in storage
+    perm, smode, has_phypos, phypos_c = user_storage(g, L)
+    has_name = bool(g.random() < 0.5); has_xo = bool(g.random() < 0.3)
+    names_c = numpy.array(["snp%03d" % int(i) for i in g.permutation(m)], dtype=object)    # names carry no positional information
+    st = {"mat": numpy.ascontiguousarray(G[:, :, perm]), "chrgrp": L["chrgrp"][perm], "genpos": L["genpos"][perm],
+          "phypos": phypos_c[perm] if has_phypos else None, "name": names_c[perm] if has_name else None,
+          "xoprob": numpy.clip(g.uniform(0, 0.5, m), 0, 0.5) if has_xo else None}
+    extra = dict(taxa_grp=numpy.sort(g.integers(0, 3, n)).astype("int64")) if g.random() < 0.3 else {}
+    G_in, glay = relayout(g, st["mat"].copy())
+
+    def make_pg():
+        return S["PG"](G_in.copy(), taxa=numpy.array(["t%02d" % i for i in range(n)], dtype=object), vrnt_chrgrp=st["chrgrp"].copy(),
+                       vrnt_phypos=None if st["phypos"] is None else st["phypos"].copy(), vrnt_genpos=st["genpos"].copy(),
+                       vrnt_name=None if st["name"] is None else st["name"].copy(), vrnt_xoprob=None if st["xoprob"] is None else st["xoprob"].copy(),
+                       vrnt_hapgrp=numpy.arange(m, dtype="int64"), ploidy=nph, **extra)
+    gcls = ("vrnt_phypos present" if has_phypos else "no vrnt_phypos") + "/" + smode
+    ctx.sumnote("storage: " + gcls)
+    if g.random() < 0.12:
+        ungrouped_submission(ctx, S, g, make_pg(), st, u[perm], nblk, n, t, gcls, coords)
+    pg = make_pg()
+    route = str(g.choice(["group_vrnt", "group_vrnt", "group(axis=-1)", "group(axis=2)", "sort_vrnt then group_vrnt", "group_vrnt twice"]))
+    try:
+        if route == "group(axis=-1)":
+            pg.group(axis=-1)
+        elif route == "group(axis=2)":
+            pg.group(axis=2)
+        else:
+            if route.startswith("sort_vrnt"):
+                pg.sort_vrnt()
+            pg.group_vrnt()
+            if route.endswith("twice"):
+                pg.group_vrnt()
+    except Exception as e:
+        ctx.raised("group_vrnt", e); ctx.ok("C18.returns")
+        ctx.violation("C18.returns", defsite(type(pg), "group_vrnt"), "raised %s" % type(e).__name__, gcls, witness={"stored": st}, coords=coords)
+        return
+    ids = check_grouping(ctx, pg, st, gcls, coords)
+    if ids is None:
+        return          # the consumers would be handed a layout that is not in position order: root cause reported above
+    # ---- the grouped matrix may reach the factories through a copy or a taxa selection (grouping must survive)
+    derive = str(g.choice(["none", "none", "none", "deepcopy", "copy", "select_taxa"]))
+    if derive != "none":
+        import copy as _copy
+        tsel = g.permutation(n)
+        try:
+            pg2 = _copy.deepcopy(pg) if derive == "deepcopy" else (_copy.copy(pg) if derive == "copy" else pg.select_taxa(tsel))
+        except Exception as e:
+            ctx.raised("harness: %s of the grouped matrix" % derive, e)
+            pg2 = None
+        if pg2 is not None:
+            expm = numpy.asarray(pg.mat)[:, tsel, :] if derive == "select_taxa" else numpy.asarray(pg.mat)
+            try:
+                same = bool(pg2.is_grouped_vrnt()) and numpy.array_equal(pg2.mat, expm) and numpy.array_equal(pg2.vrnt_genpos, pg.vrnt_genpos) \
+                    and numpy.array_equal(pg2.vrnt_chrgrp, pg.vrnt_chrgrp) and numpy.array_equal(pg2.vrnt_chrgrp_stix, pg.vrnt_chrgrp_stix) \
+                    and numpy.array_equal(pg2.vrnt_chrgrp_spix, pg.vrnt_chrgrp_spix) and numpy.array_equal(pg2.vrnt_chrgrp_len, pg.vrnt_chrgrp_len)
+            except Exception:
+                same = False
+            if not ctx.check("C18.partition.order", same, "%s.%s" % (type(pg).__name__, derive), "derived matrix keeps genotypes, marker order and chromosome grouping",
+                             gcls, witness={"derived_by": derive, "taxa": tsel}, coords=coords):
+                return
+            pg = pg2
+    # what the problems see (raw inputs of the oracle), marker by marker; the effects follow the markers
+    canon = perm[ids]
+    G = numpy.array(pg.mat); genpos = numpy.array(pg.vrnt_genpos, dtype=float)
+    u = numpy.ascontiguousarray(u[canon])
     mod, mcls, minfo = gen_model(g, S, u)
     # problems made by the selection protocols' problem() instead of from_pgmat_gpmod (their domain: >= 2 taxa)
     via_protocol = bool(g.random() < 0.3) and n >= 2
-    # what the problems see (raw inputs of the oracle)
-    G = numpy.array(pg.mat); genpos = numpy.array(pg.vrnt_genpos, dtype=float)
-    if not (numpy.array_equal(G.shape, (nph, n, m)) and numpy.array_equal(genpos, L["genpos"]) and numpy.array_equal(pg.vrnt_chrgrp, L["chrgrp"])):
-        ctx.sumnote("harness: grouping changed the marker order (case skipped)")
+    if not (G.shape == (nph, n, m) and numpy.array_equal(genpos, L["genpos"]) and numpy.array_equal(pg.vrnt_chrgrp, L["chrgrp"])):
+        ctx.sumnote("harness: grouped layout differs from the canonical one (case skipped)")
         return
     w = {"genpos": genpos, "chrgrp_stix": L["stix"], "chrgrp_spix": L["spix"], "nhaploblk": nblk, "genomemat": G, "u_a": u,
-         "model": minfo, "genome_layout": glay, "via_protocol": via_protocol}
+         "model": minfo, "genome_layout": glay, "via_protocol": via_protocol, "storage": gcls, "grouped_by": route, "derived_by": derive}
     icls_app = O.apportion_class(genpos, L["stix"], L["spix"])
     ploidy = nph
     proto_args = dict(ntrait=t, nhaploblk=nblk, ncross=1, nmating=1, nprogeny=1, nobj=t)
